@@ -34,7 +34,11 @@ func c03Check(in layoutInput) (string, string, *gen.Rendered) {
 	g := repoGrammar()
 	// "Layout the grammar allows" = the documented pre-pass (comment lines blanked, trailing " #..." cut, trailing blanks
 	// and tabs and final newlines removed) followed by derivability from OpenFGAParser.g4.
-	if !g4.DerivableLenient(g, r.Text) {
+	// The renderer writes what was legal at the pinned commit (every feature it uses is named in the property); a
+	// document is in the domain when the grammar as pinned OR the grammar as it stands derives it. If neither does, the
+	// renderer is unsound (harness error). A grammar that was narrowed after the pinned commit therefore shows up as a
+	// rejected grammatical layout, not as an inconclusive self-check.
+	if !g4.DerivablePinnedLenient(r.Text) && !g4.DerivableLenient(g, r.Text) {
 		return "", fmt.Sprintf("renderer produced a document the grammar does not derive:\n%q", r.Text), r
 	}
 	want := expectedFromAST(in.Model, in.Module, in.Extend)
